@@ -879,6 +879,25 @@ func sizesFamily(budget time.Duration) mc.Family {
 			return m
 		}})
 	}
+	// files of several megabytes: a long kerning list; a long notice in front of everything else
+	cases = append(cases, cse{"300 glyphs and 200000 kerning pairs (a file of about 5 MB)", func() *afm.Metrics {
+		m := base()
+		for i := 0; i < 300; i++ {
+			m.Glyphs[fmt.Sprintf("g%05d", i)] = &afm.GlyphInfo{WidthX: float64(200 + i)}
+		}
+		for i := 0; i < 200000; i++ {
+			m.Kern = append(m.Kern, &afm.KernPair{Left: fmt.Sprintf("g%05d", i%300), Right: fmt.Sprintf("g%05d", (i/300)%300), Adjust: funit.Int16(i%200 - 100)})
+		}
+		return m
+	}})
+	cases = append(cases, cse{"Notice of 5000000 bytes followed by 300 glyphs", func() *afm.Metrics {
+		m := base()
+		m.Notice = words(5000000)
+		for i := 0; i < 300; i++ {
+			m.Glyphs[fmt.Sprintf("g%05d", i)] = &afm.GlyphInfo{WidthX: float64(200 + i)}
+		}
+		return m
+	}})
 	for _, v := range []float64{-9.46232221, 11.3099325, -0.000123456789, 1.0 / 3, 0.1 + 0.2, 123456789.125, -12.300000000000001, 1e-7, 16777217, 0.30000001192092896, 359.99999999999994, -1e15, 5e-324} {
 		v := v
 		cases = append(cases, cse{fmt.Sprintf("ItalicAngle %v", v), func() *afm.Metrics { m := base(); m.ItalicAngle = v; return m }})
@@ -888,7 +907,7 @@ func sizesFamily(budget time.Duration) mc.Family {
 	_ = nSize
 	return mc.Family{
 		Name: "sizes-and-precision", Items: len(cases) + len(histCases), Budget: budget,
-		Rule: fmt.Sprintf("%d metrics values written and re-read by the library: Notice of 255..200000 bytes (every length around 4096, 8192 and 65536), FullName / FontName / a glyph name of 4090, 4097, 30000, 70000 bytes, one glyph with 10..9000 ligatures (one line of up to 100 KiB each), 300 and 5000 glyphs with twice as many kerning pairs, ItalicAngle over 13 values that need up to 17 significant digits; oracle: deep-equal metrics after one cycle, byte-identical file after a second; plus %d history cases: a write that follows a write which failed after 0, 40, 200 or 1000 bytes gives the same bytes as without it, and a value returned by Read may be overwritten by the caller (encoding, glyph map, kerning list) without changing what later Read calls return (files with every glyph unencoded, none unencoded, no glyphs); non-trivial = all", len(cases), len(histCases)),
+		Rule: fmt.Sprintf("%d metrics values written and re-read by the library: Notice of 255..200000 bytes (every length around 4096, 8192 and 65536), FullName / FontName / a glyph name of 4090, 4097, 30000, 70000 bytes, one glyph with 10..9000 ligatures (one line of up to 100 KiB each), 300 and 5000 glyphs with twice as many kerning pairs, files of about 5 MB (200,000 kerning pairs; a 5,000,000-byte Notice in front of the glyphs), ItalicAngle over 13 values that need up to 17 significant digits; oracle: deep-equal metrics after one cycle, byte-identical file after a second; plus %d history cases: a write that follows a write which failed after 0, 40, 200 or 1000 bytes gives the same bytes as without it, and a value returned by Read may be overwritten by the caller (encoding, glyph map, kerning list) without changing what later Read calls return (files with every glyph unencoded, none unencoded, no glyphs); non-trivial = all", len(cases), len(histCases)),
 		Body: func(c *mc.Ctx, item int) mc.Verdict {
 			if item >= len(cases) {
 				h := histCases[item-len(cases)]
